@@ -242,8 +242,12 @@ def run(c):
               "and of environment values / LOG0-3 / CALL* / CREATE(2) / SELFDESTRUCT / REVERT / out of gas, staking calls that change "
               "validator powers and membership, and -- in blocks the driver builds as another proposer -- transactions with wrong nonce, "
               "unaffordable, below the intrinsic gas, above the block gas, with a foreign signature, and duplicate-vote evidence that makes "
-              "commitBlock slash and jail a validator), a contract that is destroyed and re-created at the same address by consecutive "
-              "transactions, commits with absent signatures; one scenario in 24 is a chain of 131-138 mostly empty blocks (trie garbage "
+              "commitBlock slash and jail a validator), top-level and inner calls (value 0 and > 0, ample gas and so little that the "
+              "frame runs out of gas) to the precompiles 1..9 -- mostly RIPEMD-160, whose touch survives a reverted frame in the journal -- "
+              "and to non-existent addresses, also as the ONLY transaction of a block; a contract that is destroyed and re-created at the "
+              "same address by consecutive transactions, or whose re-creation (value transfer / CREATE2) happens inside a frame that is "
+              "reverted (whole transaction, or an inner frame next to a succeeding sibling) and which the next block reads (balance, code "
+              "hash, code size, call, transfer); commits with absent signatures; one scenario in 24 is a chain of 131-138 mostly empty blocks (trie garbage "
               "collection and flush limits run). "
               "Every block is executed on its parent state by the producer (proposer path, block from CreateProposalBlock), by 10 "
               "configurations through SaveBlock + BlockExecutor.ApplyBlock (snapshots on / off / still generating, dirty cache disabled, "
